@@ -13,7 +13,9 @@ import (
 )
 
 var oddStrings = []string{"", "a", "foo bar", "quo\"te", "back\\slash", "line\nbreak", "tab\there", "ctl\x01x",
-	"é", "漢字", "<a&b>", "{x}", "ſK", "nul\u0000l", "/", "a/b.c", " "}
+	"é", "漢字", "<a&b>", "{x}", "ſK", "nul\u0000l", "/", "a/b.c", " ",
+	// text that LOOKS like an escape once it is written to a file: a literal backslash followed by u0026 / u003c / n
+	"printf '\\u0026'", "\\u003ctag\\u003e", "\\\\u0026", "\\n\\t\\\"", "&\\u0026<\\u003c"}
 
 func hexStr(r *lib.Rng, n int) string { return r.Str("0123456789abcdef", n, n) }
 
